@@ -184,7 +184,9 @@ class GenX(F.Gen):
             body = self.block(d - 1, self.rng.randint(1, 2)) + [assign(V('w'), op('sum', V('w'), N(1)))]
             self.active_loops.pop()
             fc = self.rng.choice(self.fn_leaves)(self, ['w', 'n', 'm'])
-            cond = op('and', cmp_('<', V('w'), N(self.rng.randint(1, 3))), cmp_(self.rng.choice(['<', '>=', '/=']), fc, N(self.rng.choice([1, 2, 3]))))
+            if fc['c'] and fc['c'][0].get('k') != 'var':
+                fc['c'][0] = op('sum', V('w'), self.rng.choice([N(1), V('n'), V('m')]))    # the value changes with every iteration
+            cond = op('and', cmp_('<', V('w'), N(3)), cmp_('==', call('mod', fc, N(2)), N(self.rng.choice([0, 1]))))
             return [assign(V('w'), N(0)), {'s': 'while', 'cond': cond, 'body': body}]
         if self.fn_leaves and self.ck == 'kernel' and self.rng.random() < 0.3:
             # constructs that need a function reference in a particular place
@@ -218,7 +220,7 @@ class GenX(F.Gen):
         """A procedure `name` of callee kind ck in {'modsub','intsub','modfun','elemental','intfun'}; `lower` is
         the list of helper records it may use itself (nested calls)."""
         rng = self.rng
-        feats = set(self.f) & {'select', 'while', 'exitcycle', 'section', 'assoc'}
+        feats = set(self.f) & {'select', 'while', 'exitcycle', 'section', 'assoc', 'nestedsub', 'lbshift'}
         isfun = ck in ('modfun', 'elemental', 'intfun')
         if isfun:
             feats -= {'assoc'}
@@ -250,6 +252,12 @@ class GenX(F.Gen):
             roles[v] = L
         if not has_ib:
             roles.pop('ib')
+        if 'lbshift' in self.f:
+            # dummy / local arrays with lower bounds that differ from the actual's (the body is derived for the shifted bounds)
+            for a in ('ia', 'ra', 'ib'):
+                if roles.get(a) in (D, L) and rng.random() < 0.6:
+                    sh = rng.choice([-2, -1, 1, 2])
+                    sub.arrays[a] = [(lo + sh, hi + sh) for lo, hi in sub.arrays[a]]
         intents = {}
         for s, r in roles.items():
             if r == D:
@@ -339,7 +347,7 @@ class GenX(F.Gen):
         return ['ia'] + list(self.extra_int_arrays)
 
     def simple_index(self, arr):
-        lo, hi = 0, 4
+        lo, hi = self.arrays['ia'][0]
         cands = [v for v in self.active_loops if v != 'w' and self.loop_range.get(v, (0, -1))[0] >= lo and self.loop_range[v][1] <= hi]
         if cands and self.rng.random() < 0.5:
             return V(self.rng.choice(cands))
@@ -1078,6 +1086,46 @@ def _ctx_of_calls(ss, names, acc, ctx='top'):
             _ctx_of_calls(s['body'], names, acc)
 
 
+def arr_refs(obj, acc=None):
+    """All subscripted array references {'k': 'arr'} in a tree."""
+    acc = [] if acc is None else acc
+    if isinstance(obj, list):
+        for x in obj:
+            arr_refs(x, acc)
+    elif isinstance(obj, dict):
+        if obj.get('k') == 'arr':
+            acc.append(obj)
+        for v in obj.values():
+            if isinstance(v, (list, dict)):
+                arr_refs(v, acc)
+    return acc
+
+
+def mentions_whole(obj, names, acc=None):
+    """Whole-array references (k = var) to the given names: {name: {name}}."""
+    acc = {} if acc is None else acc
+    if isinstance(obj, list):
+        for x in obj:
+            mentions_whole(x, names, acc)
+    elif isinstance(obj, dict):
+        if obj.get('k') == 'var' and obj['name'] in names:
+            acc.setdefault(obj['name'], set()).add(obj['name'])
+        for v in obj.values():
+            if isinstance(v, (list, dict)):
+                mentions_whole(v, names, acc)
+    return acc
+
+
+def need(ap, *wanted):
+    """Applicability predicate that also requires the slice's construct (tags of the program)."""
+    def pred(p):
+        if not ap(p):
+            return False
+        tg = set(tags(p).split('+'))
+        return all(any(alt in tg for alt in w.split('|')) for w in wanted)
+    return pred
+
+
 def tags(prog):
     """Structural features of the (shrunk) failing program that matter for inlining / outlining."""
     t = set()
@@ -1107,6 +1155,13 @@ def tags(prog):
                 t.add('local-clash')
             if set(cal['args']) & own:
                 t.add('dummy-clash')
+            if any(a.get('k') not in ('var', 'arr') and mentions(a) & set(cal['args']) for a in s['args']):
+                t.add('actual-mentions-dummy-name')
+            if any(x['s'] == 'print' for x in _flat(cal['body'])):
+                t.add('callee-print')
+            dums = {d['name'] for d in cal['decls'] if d['name'] in cal['args'] and d['dims']}
+            if any(e['name'] in dums and mentions(e['c']) & dums for e in arr_refs(cal['body'])):
+                t.add('nested-subscript')
             if s.get('kworder'):
                 t.add('kwargs')
             if any(c in units for c in called_names(cal)):
@@ -1136,6 +1191,44 @@ def tags(prog):
                         t.add('region-' + kw)
         if any(d.get('param') for d in u['decls']) and any(d['name'] in mentions(body) for d in u['decls'] if d.get('param')):
             t.add('const')
+        if u['name'] == 'kernel':
+            cs = {d['name'] for d in u['decls'] if d.get('param')}
+            if cs & mentions([x['items'] for x in flat if x['s'] == 'print']):
+                t.add('const-in-print')
+            if any(cs & mentions(x['body']) for x in prog['units'] if x['host'] == 'kernel' and not x.get('stmtfunc')):
+                t.add('const-internal')
+            if 'c2' in mentions([x['body'] for x in prog['units']]) and any('c1' in c['ftext'] for c in prog['layout']['consts'] if c['name'] == 'c2'):
+                t.add('const-dep')
+            harr = {d['name'] for d in u['decls'] if d['dims']}
+            for x in prog['units']:
+                if x['host'] == 'kernel' and not x.get('stmtfunc'):
+                    own_x = {d['name'] for d in x['decls']}
+                    refs = {}
+                    for e in arr_refs(x['body']):
+                        if e['name'] in harr and e['name'] not in own_x:
+                            refs.setdefault(e['name'], set()).add(F.rx(e))
+                    for nm_, st_ in mentions_whole(x['body'], harr - own_x).items():
+                        refs.setdefault(nm_, set()).update(st_)
+                    if any(len(v) > 1 for v in refs.values()):
+                        t.add('host-array-2refs')
+            inassoc = False
+            for x in _flat(body):
+                if x['s'] == 'assoc' and any(y['s'] == 'raw' and y['text'].startswith('!$loki outline') for y in _flat(x['body'])):
+                    inassoc = True
+            if inassoc:
+                t.add('region-in-assoc')
+            arrs = {d['name'] for d in u['decls'] if d['dims']}
+            for x in flat:
+                if x['s'] == 'raw' and x['text'].startswith('!$loki outline'):
+                    for m_ in re.finditer(r'\b(?:in|out|inout)\(([^)]*)\)', x['text']):
+                        if set(m_.group(1).split(',')) & arrs:
+                            t.add('region-array-option')
+        if u.get('stmtfunc') and u['body'][0]['rhs']['k'] == 'var':
+            t.add('sf-bare')
+        if u['kind'] == 'function' and not u.get('stmtfunc'):
+            for c in call_exprs(body):
+                if c['f'] in units and units[c['f']]['kind'] == 'function' and units[c['f']]['result'] == u['result']:
+                    t.add('result-clash')
     if any(u['host'] and not u.get('stmtfunc') for u in prog['units']):
         t.add('internal')
     lay = prog.get('layout', {})
@@ -1249,7 +1342,7 @@ def sig_of(kind, msg):
     return re.sub(r'(RecursionError).*', r'\1', sg)
 
 
-def generate(rng, features, applicable, nstmts=(3, 6), depth=2, tries=40, post=None):
+def generate(rng, features, applicable, nstmts=(3, 6), depth=2, tries=400, post=None):
     """One program of the slice (regenerated until the slice's transformation statically applies) + inputs."""
     for _ in range(tries):
         g = GenX(rng, features)
